@@ -32,5 +32,3 @@ kani_unit("utils_reader", "winter-utils", "utils/core/src/serde/byte_reader.rs",
     H("utils_reader_canary_must_fail", ["C06"], [], "false claim: check_eor(1) always Ok", canary=True),
 ])
 
-PROPS["C06"] = dict(level="other", claimed=True, level_text="tbd", level_note="tbd", explanation="tbd")
-PROPS["C12"] = dict(level="other", claimed=True, level_text="tbd", level_note="tbd", explanation="tbd")
